@@ -57,6 +57,61 @@ Theorem C19_json_struct_tags_as_in_source :
 Proof. exact json_tags_as_modelled. Qed.
 Print Assumptions C19_json_struct_tags_as_in_source.
 
+(* Every decision of the modelled functions of pack.go, as source text, re-read on every run. *)
+Theorem C19_decisions_as_in_source :
+  conds_PackManifest =
+    [b "case PackManifestVersion1_0";
+     b "case PackManifestVersion1_1";
+     b "default"] /\
+  conds_Pack =
+    [b "opts.PackImageManifest"] /\
+  conds_packArtifact =
+    [b "artifactType == """"";
+     b "err != nil"] /\
+  conds_packManifestV1_0 =
+    [b "opts.Subject != nil";
+     b "opts.ConfigDescriptor != nil";
+     b "err := validateMediaType(opts.ConfigDescriptor.MediaType); err != nil";
+     b "artifactType == """"";
+     b "err := validateMediaType(artifactType); err != nil";
+     b "err != nil";
+     b "err != nil";
+     b "opts.Layers == nil"] /\
+  conds_packManifestV1_1_RC2 =
+    [b "configMediaType == """"";
+     b "opts.ConfigDescriptor != nil";
+     b "err != nil";
+     b "err != nil";
+     b "layers == nil"] /\
+  conds_packManifestV1_1 =
+    [b "artifactType == """" && (opts.ConfigDescriptor == nil || opts.ConfigDescriptor.MediaType == ocispec.MediaTypeEmptyJSON)";
+     b "artifactType != """"";
+     b "err := validateMediaType(artifactType); err != nil";
+     b "opts.ConfigDescriptor != nil";
+     b "err := validateMediaType(opts.ConfigDescriptor.MediaType); err != nil";
+     b "err := pushIfNotExist(ctx, pusher, configDesc, configBytes); err != nil";
+     b "err != nil";
+     b "len(opts.Layers) == 0";
+     b "!emptyBlobExists";
+     b "err := pushIfNotExist(ctx, pusher, layerDesc, layerData); err != nil"] /\
+  conds_pushIfNotExist =
+    [b "ros, ok := pusher.(content.ReadOnlyStorage); ok";
+     b "err != nil";
+     b "exists";
+     b "err := pusher.Push(ctx, desc, bytes.NewReader(data)); err != nil && !errors.Is(err, errdef.ErrAlreadyExists)"] /\
+  conds_pushManifest =
+    [b "err != nil";
+     b "err := pusher.Push(ctx, manifestDesc, bytes.NewReader(manifestJSON)); err != nil && !errors.Is(err, errdef.ErrAlreadyExists)"] /\
+  conds_pushCustomEmptyConfig =
+    [b "err := pushIfNotExist(ctx, pusher, configDesc, configBytes); err != nil"] /\
+  conds_ensureAnnotationCreated =
+    [b "createdTime, ok := annotations[annotationCreatedKey]; ok";
+     b "err := validateRFC3339(createdTime); err != nil"] /\
+  conds_validateMediaType =
+    [b "!mediaTypeRegexp.MatchString(mediaType)"].
+Proof. exact decisions_as_modelled. Qed.
+Print Assumptions C19_decisions_as_in_source.
+
 (* Every call of PackManifest / Pack ends in exactly one of five ways (rejected before any
    storage operation / malformed created / storage fault while handling "{}" / storage
    fault on the manifest push / success); this is the invariant the other theorems unfold. *)
